@@ -3,11 +3,25 @@ module simworld
 go 1.26
 
 require (
-	github.com/anishathalye/porcupine v1.3.0
 	github.com/golang/protobuf v1.5.3
 	github.com/hashicorp/go-hclog v0.14.1
 	github.com/hashicorp/yamux v0.1.1
+	github.com/jhump/protoreflect v1.15.1
 	github.com/oklog/run v1.0.0
 	google.golang.org/grpc v1.58.3
 	google.golang.org/protobuf v1.36.1
 )
+
+require (
+	github.com/bufbuild/protocompile v0.4.0 // indirect
+	github.com/fatih/color v1.7.0 // indirect
+	github.com/mattn/go-colorable v0.1.4 // indirect
+	github.com/mattn/go-isatty v0.0.17 // indirect
+	github.com/stretchr/testify v1.8.3 // indirect
+	golang.org/x/net v0.37.0 // indirect
+	golang.org/x/sys v0.31.0 // indirect
+	golang.org/x/text v0.23.0 // indirect
+	google.golang.org/genproto/googleapis/rpc v0.0.0-20230711160842-782d3b101e98 // indirect
+)
+
+require github.com/anishathalye/porcupine v1.3.0
